@@ -159,7 +159,11 @@ func RunCrash(s *Script, ks []int, moveOn int, twin *Twin) (*CrashResult, error)
 		return nil, fmt.Errorf("first open: %v", err)
 	}
 	crashed := !ok
-	ctxOpen := !ok
+	partialFrom := int64(-1) // stored height before the first of several interrupted restarts
+	ctxOverride := ""
+	if !ok {
+		ctxOverride = "open"
+	}
 	for {
 		if !crashed {
 			for i < len(s.Ops) {
@@ -169,7 +173,10 @@ func RunCrash(s *Script, ks []int, moveOn int, twin *Twin) (*CrashResult, error)
 					break
 				}
 				op := &s.Ops[i]
-				if out.Err != nil && !twin.OpErr[i] {
+				// (an announcement may legitimately be refused here although the twin accepted it: the
+				// node may have moved past that block while the wallet was down; the model check
+				// compares accept/reject of every announcement with the model's)
+				if out.Err != nil && !twin.OpErr[i] && op.Kind != OpAnnounce {
 					return fail("operation-fails-after-restart:"+op.Kind.String(), "operation %d (%v) failed after %d restart(s): %v; it succeeded in the run that never stopped",
 						i, op.Kind, r.Restarts, out.Err)
 				}
@@ -192,9 +199,9 @@ func RunCrash(s *Script, ks []int, moveOn int, twin *Twin) (*CrashResult, error)
 		}
 		// ---- the wallet process is gone
 		at := CrashAt{K: ctl.CrashAfter, Op: -1, Context: r.context(i, inflight)}
-		if ctxOpen {
-			at.Context = "open"
-			ctxOpen = false
+		if ctxOverride != "" {
+			at.Context = ctxOverride
+			ctxOverride = ""
 		}
 		if inflight {
 			at.Op = i
@@ -206,7 +213,11 @@ func RunCrash(s *Script, ks []int, moveOn int, twin *Twin) (*CrashResult, error)
 		if inflight {
 			j = i + 1
 		}
-		for m := moveOn; j < len(s.Ops) && m > 0; j++ {
+		m := moveOn
+		if at.Context == "restart" || at.Context == "after-restart" || at.Context == "open" {
+			m = 0 // (keeps the record of an interrupted catch-up in order)
+		}
+		for ; j < len(s.Ops) && m > 0; j++ {
 			k := s.Ops[j].Kind
 			if k.Mutating() {
 				break
@@ -228,64 +239,97 @@ func RunCrash(s *Script, ks []int, moveOn int, twin *Twin) (*CrashResult, error)
 		}
 		r.Restarts++
 		if !okOpen {
-			// crashed again while opening / catching up
+			// crashed again while opening / catching up; an operation in flight stays in flight
 			res.Crashes = append(res.Crashes, at)
-			crashed, ctxOpen = true, true
-			// an operation that was in flight stays in flight
+			crashed, ctxOverride = true, "restart"
+			if partialFrom < 0 && r.tipKnown {
+				partialFrom = int64(syncedBefore)
+			}
 			continue
 		}
 		crashed = false
-		// record: was the announcement in flight processed before the crash?
+		// lines that belong BEFORE the node moved on: the announcement in flight, if the stored
+		// tip shows that it was processed before the crash ...
 		var pre []string
-		if inflight && s.Ops[i].Kind == OpAnnounce {
-			// the block counts as processed before the crash iff the stored tip is that block
-			if r.TipBefore == *s.Ops[i].Blk.Hash() {
-				pre = append(pre, fmt.Sprintf("P %d ok", s.Ops[i].BlkID))
-			}
+		if inflight && s.Ops[i].Kind == OpAnnounce && r.TipBefore == *s.Ops[i].Blk.Hash() {
+			pre = append(pre, fmt.Sprintf("P %d ok", s.Ops[i].BlkID))
 		}
+		// ... and the operation in flight, if its effect is there (then it is not re-issued).
+		// Everything that touches the wallet is guarded: the next crash point may be reached by
+		// the background worker at any moment.
+		advance := false
+		if !r.guard(func() {
+			if inflight {
+				op := &s.Ops[i]
+				ws := s.Wallets[op.W]
+				switch op.Kind {
+				case OpCreate, OpImport:
+					if known, _ := r.WalletKnown(ws.ID); known {
+						advance = true
+					}
+				case OpNewAddr:
+					if r.HasAddress(op.W, op.Addr, op.Class) {
+						advance = true
+					}
+				case OpRemove:
+					if known, removed := r.WalletKnown(ws.ID); !known || removed {
+						advance = true
+					}
+				}
+			}
+		}) {
+			res.Crashes = append(res.Crashes, at)
+			crashed, ctxOverride = true, "after-restart"
+			if partialFrom < 0 {
+				partialFrom = int64(syncedBefore)
+			}
+			continue
+		}
+		if inflight && advance {
+			op := &s.Ops[i]
+			switch op.Kind {
+			case OpCreate, OpImport:
+				r.Active[op.W] = true
+			case OpNewAddr:
+				r.Issued[op.W] = append(r.Issued[op.W], op.Addr)
+				pre = append(pre, fmt.Sprintf("A %d %d", op.Sh, op.W))
+			case OpRemove:
+				r.Active[op.W] = false
+			}
+			i++
+		}
+		inflight = false
 		if len(pre) > 0 {
 			r.Lines = append(r.Lines[:mark:mark], append(pre, r.Lines[mark:]...)...)
 		}
-		// catch-up performed by Start: the node's blocks above the stored tip, in order
+		// catch-up performed by Start (possibly over several attempts): the node's blocks above
+		// the stored tip, in order
+		from := syncedBefore
+		if partialFrom >= 0 {
+			from = uint64(partialFrom)
+			partialFrom = -1
+		}
 		best := r.W.H.VerifBest()
-		for h := syncedBefore + 1; h <= r.N.Height(); h++ {
-			res := "ok"
+		for h := from + 1; h <= r.N.Height(); h++ {
+			v := "ok"
 			if best.Height < h {
-				res = "err"
+				v = "err"
 			}
-			r.emit("P %d %s", s.Gen.CfBlockID(r.N.Best[h]), res)
+			r.emit("P %d %s", s.Gen.CfBlockID(r.N.Best[h]), v)
 			at.CaughtUp++
 		}
 		if best.Hash == *r.N.Tip().Hash() {
 			r.Stale = false
 		}
 		res.Crashes = append(res.Crashes, at)
-		// resolve the operation that was in flight: it is re-issued unless its effect is there
-		if inflight {
-			op := &s.Ops[i]
-			ws := s.Wallets[op.W]
-			switch op.Kind {
-			case OpCreate, OpImport:
-				if known, _ := r.WalletKnown(ws.ID); known {
-					r.Active[op.W] = true
-					i++
-				}
-			case OpNewAddr:
-				if r.HasAddress(op.W, op.Addr, op.Class) {
-					r.noteAddr(op, op.Addr)
-					i++
-				}
-			case OpRemove:
-				if known, removed := r.WalletKnown(ws.ID); !known || removed {
-					r.Active[op.W] = false
-					i++
-				}
-			}
-			inflight = false
+		if !r.guard(func() { r.Query() }) {
+			crashed, ctxOverride = true, "after-restart"
+			continue
 		}
-		r.Query()
 	}
-	res.Final = r.Snapshot()
+	if !r.guard(func() { res.Final = r.Snapshot() }) {
+		return nil, fmt.Errorf("crash point reached while taking the final snapshot (background work after the final wait)")
+	}
 	res.Lines = append(r.Lines, "E")
 	if res.Final != twin.Final && len(res.Crashes) > 0 {
 		ctxs := []string{}
